@@ -594,12 +594,21 @@ func (st *gstate) exec(op Op) (res []byte, panicMsg string) {
 			o.u(uint64(bs.YPpem))
 		}
 		if ft.Cmap != nil {
+			// The order of iteration is not specified (some cmaps range over a Go map): the
+			// result is the number of entries and an order-independent digest of all of them.
 			it := ft.Cmap.Iter()
-			for n := 0; n < op.A && it.Next(); n++ {
+			var n, sum, xor uint64
+			for n < 200000 && it.Next() {
 				r, g := it.Char()
-				o.i(int64(r))
-				o.u(uint64(g))
+				h := (uint64(uint32(r))<<32 | uint64(g)) * 0x9E3779B97F4A7C15
+				h ^= h >> 29
+				sum += h
+				xor ^= h
+				n++
 			}
+			o.u(n)
+			o.x(sum)
+			o.x(xor)
 		}
 		// NormalizeVariations documents that it panics unless given one value per axis
 		design := make([]float32, st.naxes[f])
